@@ -797,6 +797,38 @@ fn make_limit(rng: &mut StdRng, cache: &mut BigCache, shape: &str, bits: u32) ->
                 }
             }
         }
+        // P-1 structured, non-squarefree: p^2 * q [* r] with p - 1 13-smooth (p comes out of the first stage-1 block, one
+        // copy only) and q - 1 = 2 s l with l a prime that stage 1 reaches in a LATER block (the last primes below 65536 for
+        // B1 = 65536, i.e. inputs of 81..120 bits; a prime in (65536, 262144) for 121..160 bits); r a plain prime that
+        // stays unfound.  The parts P-1 returns at different steps must still multiply to n.
+        "sp2q" => {
+            let p = Uint::from(smooth_prime(rng, 28));
+            let l: u64 = if bits <= 120 {
+                [65521u64, 65519, 65497, 65479][rng.gen_range(0..4)]
+            } else {
+                loop {
+                    let c = rng.gen_range(65537u64..262144) | 1;
+                    if is_prime_u64(c) {
+                        break c;
+                    }
+                }
+            };
+            let q = loop {
+                let mut m: u64 = 2 * l;
+                while 64 - m.leading_zeros() < 44 {
+                    m *= [2u64, 3, 5, 7, 11, 13][rng.gen_range(0..6)];
+                }
+                if is_prime_u64(m + 1) {
+                    break Uint::from(m + 1);
+                }
+            };
+            let n = p * p * q;
+            if bits > n.bits() + 20 {
+                n * plain_prime(rng, bits - n.bits())
+            } else {
+                n
+            }
+        }
         "bigprime" => cache.prime(rng, bits),
         // above the limit *after* trial division: no prime factor below 200
         "over_random" => loop {
@@ -832,9 +864,12 @@ pub fn works_from_shapes(shapes: &[Value], seed: u64, salt: &str, reps: u64, poo
         let alg = sh["alg"].as_str().unwrap();
         let deterministic = matches!(shape, "zero" | "one" | "two" | "pow2" | "ones" | "over_pow2");
         // shapes whose interesting branch is only taken on a fraction of the inputs get more instances
-        let reps = if shape == "p3q" && matches!(alg, "qs" | "mpqs" | "siqs") { 4 * reps } else { reps };
+        let reps = if (shape == "p3q" && matches!(alg, "qs" | "mpqs" | "siqs")) || shape == "sp2q" { 4 * reps } else { reps };
+        // volume: plain semiprimes in numbers, for branches that depend on arithmetic accidents of n (which multiplier
+        // scores best, which primes land in the factor base) and are taken by a fraction of a percent of the inputs
+        let (shape, reps) = if shape == "pqvol" { ("pq", 240 * reps) } else { (shape, reps) };
         for rep in 0..(if deterministic { 1 } else { reps }) {
-            let (n, primes) = if matches!(shape, "qP" | "bigprime") || shape.starts_with("over_") {
+            let (n, primes) = if matches!(shape, "qP" | "bigprime" | "sp2q") || shape.starts_with("over_") {
                 (make_limit(&mut rng, &mut cache, shape, bits), None)
             } else {
                 make_n(&mut rng, pool, shape, bits)
